@@ -1,2 +1,110 @@
-(* Props/C01.v - placeholder, extended below *)
-From MM Require Import Model.Conn.
+(* Props/C01.v - No command is served on a connection that has not authenticated.
+   Proved here (partial, see DESIGN.md): a refusal at any point of the initial exchange finishes the connection
+   for good - whatever the client sends afterwards nothing is called and nothing is written; a refused or
+   aborted COM_CHANGE_USER leads to session.close and the end of the connection; the session is initialised
+   only after a Success verdict.  The general statement over arbitrary histories of COM_CHANGE_USER is carried
+   by the lock-step runs against Model/Conn.v. *)
+From Coq Require Import List Arith NArith Lia Bool.
+From MM Require Import Lib.Bytes Model.Conn Proofs.ConnInv Proofs.C10Proofs Proofs.KillProofs Gen.FactsConn.
+Import ListNotations.
+Open Scope N_scope.
+
+Definition B : N := conn_buffer_size.
+Definition BATCH : N := utils_batch_size.
+
+Theorem c01_source_shape :
+  translated_conn = true /\ connection_connection_authenticate_ok = true /\ connection_connection_inner_start_ok = true /\
+  connection_connection_connection_phase_ok = true /\ connection_connection_handle_change_user_ok = true /\
+  connection_connection_command_phase_ok = true /\
+  err_access_denied_error = E_ACCESS_DENIED /\ err_user_does_not_exist = E_USER_DOES_NOT_EXIST.
+Proof. repeat split; reflexivity. Qed.
+
+Definition served (o : out) : bool :=
+  match o with OSess SInit | OSess SQuery | OSess SReset | OSess SUse => true | _ => false end.
+Definition non_err_write (o : out) : bool :=
+  match o with OWrite ps => existsb (fun qp => match snd qp with PErr _ => false | _ => true end) ps | _ => false end.
+
+Lemma exec_app s a b : exec B BATCH s (a ++ b) =
+  let '(s1, o1) := exec B BATCH s a in let '(s2, o2) := exec B BATCH s1 b in (s2, o1 ++ o2).
+Proof.
+  revert s. induction a as [|e a IH]; intros s; cbn [app exec].
+  - destruct (exec B BATCH s b); reflexivity.
+  - destruct (step B BATCH s e) as [s1 o1]. rewrite IH. destruct (exec B BATCH s1 a) as [s2 o2].
+    destruct (exec B BATCH s2 b) as [s3 o3]. now rewrite app_assoc.
+Qed.
+
+Lemma exec_done s evs : ctl_ s = Done -> exec B BATCH s evs = (s, []).
+Proof.
+  revert s. induction evs as [|e evs IH]; intros s H; [reflexivity|].
+  cbn [exec]. rewrite (step_done B BATCH s e H). rewrite IH by assumption. reflexivity.
+Qed.
+
+Lemma done_of_flag (r : st * list out) (rest : bool) :
+  (match ctl_ (fst r) with Done => true | _ => false end && rest) = true -> ctl_ (fst r) = Done.
+Proof. destruct (ctl_ (fst r)); cbn; intros H; try discriminate H; reflexivity. Qed.
+
+Lemma session_app_done hs pre evs : ctl_ (fst (session B BATCH hs pre)) = Done ->
+  session B BATCH hs (pre ++ evs) = session B BATCH hs pre.
+Proof.
+  unfold session. destruct (boot B BATCH hs) as [s0 o0]. rewrite exec_app.
+  destruct (exec B BATCH s0 pre) as [s1 o1]. cbn [fst]. intros D.
+  rewrite (exec_done s1 evs D). now rewrite app_nil_r.
+Qed.
+
+(* a refusal (unknown user / forbidden / provider or plugin failure / unparsable handshake response) at the
+   first verdict, after one or after two more-data / auth-switch round trips: the connection is finished,
+   the session was never initialised, nothing was served; and for EVERY continuation of the client the
+   outcome is the same: nothing more is called, nothing more is written *)
+Definition refusal_prefixes : list (list ev) :=
+  flat_map (fun dep =>
+    [ [EvHandshake true dep; EvDecide ANoUser]; [EvHandshake true dep; EvDecide AForbidden];
+      [EvHandshake true dep; EvDecide AMore; EvAuthReply AForbidden];
+      [EvHandshake true dep; EvDecide ASwitch; EvAuthReply AForbidden];
+      [EvHandshake true dep; EvDecide ASwitch; EvAuthReply AMore; EvAuthReply AForbidden];
+      [EvHandshake true dep; EvDecide AMore; EvAuthReply AMore; EvAuthReply AMore; EvAuthReply AForbidden];
+      [EvHandshake false dep]; [EvHandshake true dep; EvDecide ARaise]; [EvHandshake true dep; EvDecide AMore; EvAuthReply ARaise] ])
+    [true; false].
+
+Definition refused_ok (pre : list ev) : bool :=
+  let r := session B BATCH 60 pre in
+  match ctl_ (fst r) with Done => true | _ => false end &&
+  negb (existsb served (snd r)) && negb (inited (fst r)) && (closes (fst r) =? 0)%nat.
+
+Lemma refusals_computed : forallb refused_ok refusal_prefixes = true.
+Proof. vm_compute. reflexivity. Qed.
+
+Lemma refusals_done : Forall (fun pre => ctl_ (fst (session B BATCH 60 pre)) = Done) refusal_prefixes.
+Proof. unfold refusal_prefixes. cbn [flat_map app]. repeat constructor; vm_compute; reflexivity. Qed.
+
+Theorem c01_refusal_is_final : forall pre evs, In pre refusal_prefixes ->
+  session B BATCH 60 (pre ++ evs) = session B BATCH 60 pre /\ refused_ok pre = true.
+Proof.
+  intros pre evs Hin. split.
+  - apply session_app_done. pose proof refusals_done as D. rewrite Forall_forall in D. exact (D pre Hin).
+  - pose proof refusals_computed as R. rewrite forallb_forall in R. exact (R pre Hin).
+Qed.
+
+(* a refused or aborted COM_CHANGE_USER: ERR, then only session.close, then the connection is finished;
+   nothing the client sends afterwards is served *)
+Definition cu_prefix (d : adecision) : list ev :=
+  [EvHandshake true true; EvDecide ASuccess; EvApp OVoid; EvPayload CChangeUser; EvDecide d; EvApp OVoid].
+
+Definition cu_ok (d : adecision) : bool :=
+  let r := session B BATCH 60 (cu_prefix d) in
+  match ctl_ (fst r) with Done => true | _ => false end && (closes (fst r) =? 1)%nat &&
+  match filter (fun x => match x with OSess _ => true | _ => false end) (skipn 4 (snd r)) with
+  | [OSess SGetUser; OSess SClose] => true | _ => false end.
+
+Lemma cu_computed : forallb cu_ok [ANoUser; AForbidden; ARaise] = true.
+Proof. vm_compute. reflexivity. Qed.
+
+Lemma cu_done : Forall (fun d => ctl_ (fst (session B BATCH 60 (cu_prefix d))) = Done) [ANoUser; AForbidden; ARaise].
+Proof. repeat constructor; vm_compute; reflexivity. Qed.
+
+Theorem c01_change_user_refusal_is_final : forall d evs, In d [ANoUser; AForbidden; ARaise] ->
+  session B BATCH 60 (cu_prefix d ++ evs) = session B BATCH 60 (cu_prefix d) /\ cu_ok d = true.
+Proof.
+  intros d evs Hin. split.
+  - apply session_app_done. pose proof cu_done as D. rewrite Forall_forall in D. exact (D d Hin).
+  - pose proof cu_computed as R. rewrite forallb_forall in R. exact (R d Hin).
+Qed.
